@@ -14,6 +14,7 @@ import GPVerif.Bridge.InitDispatch
 import GPVerif.Bridge.MatrixPriors
 import Mathlib.Probability.Distributions.Gaussian.Real
 import Mathlib.Tactic.NormNum
+import Mathlib.MeasureTheory.Integral.Pi
 import Mathlib.Tactic.Push
 
 namespace C17
@@ -602,6 +603,49 @@ theorem initialize_multi_reads_back (n : Node) (kvs : List (Path × ℝ)) :
       cases resolve n kv.1 with
       | none => rfl
       | some t => cases t <;> rfl
+
+/-! ### round 4: closures of `register_prior(name, prior, "param")`; scalar boxes on multi-element values -/
+
+/-- **gen_prior_closures_follow_called_module** — the closures that `register_prior(name, prior, "param")` generates
+(regenerated from module.py), registered on a module `orig` and later called with ANY module `m` — in particular a
+`deepcopy` of `orig`, which shares the function objects — read `m`'s parameter and initialize `m`, and
+`m.sample_from_prior` hands `m` to the setting closure: a copy never evaluates or writes the original. -/
+theorem gen_prior_closures_follow_called_module {β : Type} (orig m : β) :
+    Gen.InitDispatch.priorClosureReads.pick orig m = m ∧
+    Gen.InitDispatch.priorSettingClosureWrites.pick orig m = m ∧
+    Gen.InitDispatch.sampleFromPriorPasses.pick orig m = m := by
+  refine ⟨rfl, rfl, rfl⟩
+
+/-- **gen_smoothed_box_broadcast** — `SmoothedBoxPrior._log_prob` (regenerated, reductions included) of a box with SCALAR
+`a, b, σ` on a value with any number `d` of trailing elements is the sum of the one-coordinate log densities: the
+log of the `d`-fold product density (in particular `d` normalisers are subtracted, not one). -/
+theorem gen_smoothed_box_broadcast (a b σ : ℝ) (xs : List ℝ) :
+    Gen.Priors.smoothedBoxLogProbVec a b σ xs = (xs.map (Gen.Priors.smoothedBoxLogProb a b σ)).sum := by
+  have key : ∀ (f : ℝ → ℝ) (l : List ℝ) (acc : ℝ), l.foldl (fun acc x => acc + f x) acc = acc + (l.map f).sum := by
+    intro f l
+    induction l with
+    | nil => intro acc; simp
+    | cons x l ih => intro acc; simp only [List.foldl_cons, List.map_cons, List.sum_cons, ih]; ring
+  unfold Gen.Priors.smoothedBoxLogProbVec
+  rw [key]
+  simp only [Nat.cast_zero, zero_add]
+  congr 2
+  funext x
+  simp only [Gen.Priors.smoothedBoxLogProb, Nat.cast_zero]
+
+open MeasureTheory in
+/-- **prior_normalised_broadcast** — the broadcast case of `prior_normalised`: for every `d`, the regenerated density of
+a scalar smoothed box on `d`-element values integrates to one over `ℝ^d`. -/
+theorem prior_normalised_broadcast (d : Nat) (a b σ : ℝ) (hab : a < b) (hσ : 0 < σ) :
+    ∫ x : Fin d → ℝ, Real.exp (Gen.Priors.smoothedBoxLogProbVec a b σ (List.ofFn x)) = 1 := by
+  have h : ∀ x : Fin d → ℝ, Real.exp (Gen.Priors.smoothedBoxLogProbVec a b σ (List.ofFn x)) =
+      ∏ i, Real.exp (Gen.Priors.smoothedBoxLogProb a b σ (x i)) := by
+    intro x
+    rw [gen_smoothed_box_broadcast, List.map_ofFn, List.sum_ofFn, Real.exp_sum]
+    rfl
+  simp_rw [h]
+  rw [integral_fintype_prod_volume_eq_prod (fun _ x => Real.exp (Gen.Priors.smoothedBoxLogProb a b σ x))]
+  simp [PriorNorm.smoothedBox_normalised a b σ hab hσ]
 
 /-! ### the hypotheses are satisfiable -/
 
